@@ -221,6 +221,42 @@ func (ex *Exec) applyAliases(env *Env, fn *ssa.Function) {
 	}
 }
 
+// applyBinds: names bound by `bind NAME = CALLEE` denote the result of the call of CALLEE that
+// has been executed in this frame and dominates the point of evaluation (block at; nil = anywhere).
+func (ex *Exec) applyBinds(env *Env, fr *Frame, at *ssa.BasicBlock) {
+	c := ex.specs.Contracts[fnKeyOf(fr.fn)]
+	if c == nil || len(c.Binds) == 0 {
+		return
+	}
+	for name, callee := range c.Binds {
+		if _, has := env.vars[name]; has {
+			continue
+		}
+		var best ssa.Value
+		bestOrder := 0
+		for v, val := range fr.vals {
+			call, ok := v.(*ssa.Call)
+			if !ok {
+				continue
+			}
+			sc := call.Common().StaticCallee()
+			if sc == nil || fnKeyOf(sc) != callee {
+				continue
+			}
+			if at != nil && call.Block() != at && !call.Block().Dominates(at) {
+				continue
+			}
+			if o := ex.instrOrder(fr.fn, call); best == nil || o < bestOrder {
+				best, bestOrder = v, o
+				_ = val
+			}
+		}
+		if best != nil {
+			env.vars[name] = fr.vals[best]
+		}
+	}
+}
+
 func writeBaseNames(path string, ld *Loaded, keys []string) {
 	all := map[string]*fnNames{}
 	if data, err := os.ReadFile(path); err == nil {
@@ -360,6 +396,26 @@ func baseNameOfKey(k string) string {
 	return k
 }
 
+func freeVarNames(f *ssa.Function) []string {
+	var out []string
+	for _, v := range f.FreeVars {
+		out = append(out, v.Name())
+	}
+	return out
+}
+
+func sameStrings(a, b []string) bool {
+	if len(a) != len(b) {
+		return false
+	}
+	for i := range a {
+		if a[i] != b[i] {
+			return false
+		}
+	}
+	return true
+}
+
 func eligibleForRekey(k string) bool {
 	if indexByte(k, '$') >= 0 {
 		return true
@@ -379,6 +435,12 @@ func computeKeyOverrides(funcs []*ssa.Function) {
 	stable := map[*ssa.Function]bool{}
 	for _, f := range funcs {
 		if b := baseNames[naturalKey(f)]; b != nil && (b.Sig == "" || b.Sig == sigOf(f)) {
+			// closures are numbered in source order: a closure inserted before this one takes
+			// over its name, so a closure keeps its key only while it still looks like the
+			// recorded one (what it captures, or what it calls)
+			if f.Parent() != nil && b.Sig != "" && !sameStrings(b.FreeVars, freeVarNames(f)) && !similarCallees(b.Callees, calleeSet(f)) {
+				continue
+			}
 			stable[f] = true
 		}
 	}
@@ -483,6 +545,48 @@ func (ex *Exec) loopAssigned(fn *ssa.Function, h *ssa.BasicBlock) map[string]boo
 	return out
 }
 
+// loopSpecStale: the block names a local variable of the baseline function that neither exists
+// nor has a renamed successor in the current function.
+func (ex *Exec) loopSpecStale(fn *ssa.Function, ls *LoopSpec) bool {
+	base := baseNames[fnKeyOf(fn)]
+	if base == nil || ls == nil {
+		return false
+	}
+	ids := map[string]bool{}
+	for _, cl := range ls.Invariants {
+		identsOf(cl.Expr, ids)
+	}
+	for _, cl := range ls.Steps {
+		identsOf(cl.Expr, ids)
+	}
+	identsOf(ls.Decreases, ids)
+	cur := currentNames(fn)
+	have := map[string]bool{}
+	for _, l := range cur.Locals {
+		have[l.Name] = true
+	}
+	for _, n := range cur.Params {
+		have[n] = true
+	}
+	for _, n := range cur.FreeVars {
+		have[n] = true
+	}
+	for _, n := range cur.Results {
+		have[n] = true
+	}
+	aliases := ex.aliasesOf(fn)
+	for _, l := range base.Locals {
+		if !ids[l.Name] || have[l.Name] {
+			continue
+		}
+		if len(aliases[l.Name]) > 0 {
+			continue
+		}
+		return true
+	}
+	return false
+}
+
 func (ex *Exec) matchLoops(fn *ssa.Function, c *Contract) *loopMatch {
 	if m, ok := loopMatches[fn]; ok {
 		return m
@@ -504,7 +608,17 @@ func (ex *Exec) matchLoops(fn *ssa.Function, c *Contract) *loopMatch {
 	}
 	if direct || len(specOrds) == 0 {
 		for _, o := range specOrds {
+			if ex.loopSpecStale(fn, c.Loops[o]) {
+				// the block is about a variable the function no longer has (the loop has been
+				// rewritten around other state): it cannot be evaluated, the loop is checked by
+				// bounded unrolling instead and the block's obligations are reported as dropped
+				m.dropped = append(m.dropped, o)
+				continue
+			}
 			m.specOf[o] = o
+		}
+		if len(m.dropped) > 0 {
+			droppedLoopSpecs[fnKeyOf(fn)] = m.dropped
 		}
 		return m
 	}
